@@ -11,7 +11,8 @@ TRUSTED = {
           'repeat, Cow operations, mem::take, ...), vstd\'s own assume_specifications and vstd::utf8',
     'A5': 'A5 Fragment accessors are pure (each accessor returns its ghost twin)',
     'A6': 'A6 smawk::online_column_minima(init, n, f) calls f(m, i, j) only with i < j < n, i < m.len(), and returns a back-pointer table of length n with '
-          'm[0].0 == 0 and m[k].0 < k; its minimality additionally needs total monotonicity, which nobody proves (optimality is bounded-only)',
+          'm[0].0 == 0 and m[k].0 < k; its minimality additionally needs total monotonicity, which nobody proves (optimality is bounded-only). '
+          'The shape is checked on the real smawk crate by the bounded contract A6.smawk.call_shape (C03, C06)',
     'A7': 'A7 LineNumbers::{new,get} (RefCell + recursion) are external_body: assumed to terminate and return some usize',
     'A8': 'A8 termination of display_width\'s loop: the proved invariant shows remaining() strictly shrinks, but Verus forbids prophetic values in '
           'decreases (exec_allows_no_decreases_clause on that one function)',
